@@ -21,7 +21,9 @@ NEXT = re.compile(r'as std::iter::Iterator>::next$|^std::iter::Iterator::next$')
 UNORDERED_TY = re.compile(r'Hash(Set|Map)|BTree(Set|Map)')
 
 ENTROPY = re.compile(r'^std::time::|^std::env::(var|var_os|vars|vars_os|temp_dir|current_dir|home_dir|current_exe)$|std::thread::current$|std::process::id$|RandomState::new$|hash::DefaultHasher|std::thread::spawn|<.* as std::fmt::Pointer>::fmt$|fmt::rt::Argument::<.*>::new_pointer$'
-                     r'|sync::atomic::Atomic\w*(::<[^>]*>)?::(fetch_\w+|store|swap|compare_exchange\w*|compare_and_swap|load|get_mut|into_inner)$|thread::local::LocalKey<.*>::(with|set|get|take|replace|with_borrow\w*)$|sync::(Mutex|RwLock)<.*>::(lock|write|read|try_lock|try_write|try_read|get_mut)$|cell::(Cell|RefCell)<.*>::(set|replace|swap|take|borrow_mut|try_borrow_mut)$')
+                     r'|sync::atomic::Atomic\w*(::)?(<[^>]*>)?::(fetch_\w+|store|swap|compare_exchange\w*|compare_and_swap|load|get_mut|into_inner)$|thread::(local::)?LocalKey(::)?<.*>::(with|try_with|set|get|take|replace|with_borrow\w*)$'
+                     r'|sync::(poison::)?(mutex::|rwlock::)?(Mutex|RwLock)(::)?<.*>::(lock|write|read|try_lock|try_write|try_read|get_mut)$|cell::(Cell|RefCell)(::)?<.*>::(set|replace|swap|take|borrow_mut|try_borrow_mut)$'
+                     r'|sync::(once_lock::)?OnceLock(::)?<.*>::(set|try_insert)$|cell::(once::)?OnceCell(::)?<.*>::(set|try_insert)$')
 
 # frozen exception table: (function, container type regex) -> reason
 COMMUTATIVE_LOOPS = {
@@ -441,6 +443,15 @@ def run(ctx, rep):
         for name in ('c16::unsorted_return', 'c16::loop_in_hash_order', 'c16::sorted_too_late', 'c16::field_left_unsorted'):
             rep.inst(crid, name)
             rep.control(crid, name, name in fired)
+        # M-C16b on the fixture: mutex-guarded cache, atomic counter, thread-local list must be reported; the constant behind a LazyLock not
+        eprobe = core.Report('C16', rep.tier)
+        rule_entropy(eprobe, [('mirfixture', fx)])
+        efired = {m.group(1) for m in (re.match(r'entropy:(c16::\w+)', v['key']) for v in eprobe.rules['M-C16b']['violations']) if m}
+        for name in ('c16::entropy_mutex_cache', 'c16::entropy_atomic_counter', 'c16::entropy_thread_local'):
+            rep.inst(crid, name)
+            rep.control(crid, name, name in efired)
+        if 'c16::entropy_const_ok' in efired:
+            rep.viol(crid, 'control-false-alarm:c16::entropy_const_ok', 'M-C16b fires on a constant behind a LazyLock')
         silent = fired & {'c16::sorted_ok', 'c16::rehashed_ok', 'c16::counted_ok'}
         for name in silent:
             rep.viol(crid, 'control-false-alarm:' + name, 'the rule fires on the compliant fixture %s' % name)
